@@ -18,7 +18,7 @@ void *memchr(const void *s, int c, size_t n) {
 /* Bounded units (-DC13_BSTR_MODEL, bstr.c NOT linked): fixed-capacity model of the two bstr primitives the
  * splitter uses.  Capacity N bytes (the unit's input bound) so that the heap objects have a constant size.
  * The real bstr_dup_mem is compared with this model by unit c13_dup_model_lemma. */
-#ifdef C13_BSTR_MODEL
+#if defined(C13_BSTR_MODEL) && !defined(VNATIVE)   /* native replays link the real bstr.c */
 bstr *bstr_dup_mem(const void *data, size_t len) {
     VASSERT(len <= N, "bstr model: requested length within the unit's bound");
     bstr *b = malloc(sizeof(bstr) + (N));
